@@ -45,6 +45,8 @@ var shapes = []shape{
 	{"clockwise square", oracle.ClosedData(pts(1, 1, 1, 6, 6, 6, 6, 1))},
 	{"circle", circleData(4, 4, 2.5)},
 	{"open zig-zag", oracle.OpenData(pts(1, 1, 7, 2, 2, 6))},
+	{"open triangle then closed triangle", append(oracle.OpenData(pts(1, 1, 5, 1, 3, 4)), oracle.ClosedData(pts(6, 3, 10, 3, 8, 7))...)},
+	{"closed triangle then open triangle then closed square", append(append(oracle.ClosedData(pts(1, 5, 4, 5, 2, 8)), oracle.OpenData(pts(5, 1, 9, 1, 7, 4))...), oracle.ClosedData(pts(9, 5, 11, 5, 11, 8, 9, 8))...)},
 	{"overlapping squares CCW+CCW", oracle.ClosedData(pts(1, 1, 5, 1, 5, 5, 1, 5), pts(3, 3, 8, 3, 8, 7, 3, 7))},
 }
 
@@ -418,7 +420,7 @@ func Prop() *fw.Property {
 		Level: "exploration",
 		Rule:  "full product of the shape, fill-rule, view, resolution, paint and colour-space menus through Rasterizer.RenderPath; every pixel whose centre is more than one pixel from the transformed boundary must carry the paint iff rule.Fills(winding) (pixel (i,j) <-> canvas point ((i+.5)/dpmm, H-(j+.5)/dpmm)); render twice = identical bytes; path data and gradient stops unchanged; two-layer canvases through Context/Draw for size, flip and paint order; strokes paint the NonZero region of the outline Path.Stroke returns (C04 judges the outline itself); non-trivial = decidable pixels on both sides",
 		Assumptions: []string{
-			"menus: 8 shapes, 4 rules, 4 views, resolutions {1,2.5[,8]} px/mm, 3 paints, 2 colour spaces; other inputs are outside the bound",
+			"menus: 10 shapes, 4 rules, 4 views, resolutions {1,2.5[,8]} px/mm, 3 paints, 2 colour spaces; other inputs are outside the bound",
 			"paint tolerance 2/255 (3 with sRGB round trip; gradient colours are compared in the linear colour space only, tolerance 4 = one pixel of gradient travel); 'untouched' = every channel <= 2/255 (the third-party scanner leaves coverage of 1/255 up to two pixels from an edge; counted in the evidence)",
 			"stroke regions other than round cap/join are covered by C04 (geometry) and C12 (back-ends)",
 		},
